@@ -128,8 +128,8 @@ def fam_api_text(rng, idx, cfg, lists, fmt):
         steps.append({"s": "new", "files": [[fname, fmt]]})
     else:
         steps += [{"s": "new"}, {"s": "add_file", "file": fname, "fmt": fmt}]
-    if rng.random() < 0.35:
-        # one more reaction given as a (string, format) pair
+    if idx % 2 == 0 or rng.random() < 0.35:
+        # one more reaction given as a (string, format) pair (tied to the index: every library has them)
         ar = dict(pool_lines(rng, cfg, 1, fmt)[0], alpha=3.3e-11)
         if not net.get("allowed_species") or all(W.CONFIGS[cfg]["spell"][k] in net["allowed_species"] for k in W.species_of(ar)):
             steps.append({"s": "add_str", "line": W.encode(cfg, ar, fmt, 77) + "\n", "fmt": fmt})
@@ -570,6 +570,11 @@ def fam_random(rng, idx):
     else:
         steps.append({"s": "new"})
         steps += [{"s": "add_file", "file": f, "fmt": m} for f, m in fsteps]
+    if not net.get("allowed_species") and rng.random() < 0.5:
+        fmt2 = rng.choice([f for f in fmts if f != "krome"])
+        ar = dict(pool_lines(rng, cfg, 1, fmt2)[0], alpha=9.1e-11)
+        steps.append({"s": "add_str", "line": W.encode(cfg, ar, fmt2, 900) + "\n", "fmt": fmt2})
+        nreac += 1
     steps += api_tail(rng, nreac, can_edit=not (net.get("ode_modifier") or net.get("allowed_species") or net.get("cooling")),
                       can_export=not net.get("rate_modifier"))
     for st in steps:
@@ -578,7 +583,29 @@ def fam_random(rng, idx):
     return {"id": f"{fam}-{idx}", "family": fam, "entry": "api", "name": "simproj", "files": files, "net": net, "steps": steps}
 
 
-def perturb(rng, d, k):
+def perturb_ops(d):
+    """The perturbations that apply to description d, the specific ones first."""
+    n = d["net"]
+    ops = []
+    if any(f.endswith(".krome") for f in d.get("files", {})):
+        ops += ["krome_directive", "krome_case"]
+    if d["entry"] == "cli":
+        ops += ["binding", "replacement", "yield"]
+    if n.get("grain_model"):
+        ops += ["set_eb", "grain_model"]
+    if any(st["s"] == "add_inst" for st in d["steps"]):
+        ops += ["int_float_temps"]
+    if n.get("cooling"):
+        ops += ["cooling_subset"]
+    if n.get("elements"):
+        ops += ["elements_order"]
+    if n.get("pseudo_elements"):
+        ops += ["pseudo_variant"]
+    ops += ["coefficient", "elements_extra", "required", "shielding", "rate_modifier"]
+    return ops
+
+
+def perturb(rng, d, k, op=None):
     """A near twin of description d: the same script with ONE small thing changed that lives in, or
     is looked up through, process-wide or shared state.  Pairs (d, twin) are what collides on
     caches with lossy keys, leaked tables and aliased objects.  Sloppy on purpose: a twin naunet
@@ -588,22 +615,8 @@ def perturb(rng, d, k):
 
     t = copy.deepcopy(d)
     n, c = t["net"], t.setdefault("cli", {}) if t["entry"] == "cli" else t.get("cli", {})
-    ops = ["coefficient", "elements_extra", "required", "shielding", "rate_modifier"]
-    if any(f.endswith(".krome") for f in t.get("files", {})):
-        ops += ["krome_case", "krome_case", "krome_directive"]
-    if t["entry"] == "cli":
-        ops += ["binding", "binding", "replacement", "replacement", "yield"]
-    if n.get("grain_model"):
-        ops += ["grain_model", "set_eb"]
-    if n.get("cooling"):
-        ops += ["cooling_subset"]
-    if n.get("elements"):
-        ops += ["elements_order"]
-    if n.get("pseudo_elements"):
-        ops += ["pseudo_variant"]
-    if any(st["s"] == "add_inst" for st in t["steps"]):
-        ops += ["int_float_temps", "int_float_temps"]
-    op = rng.choice(ops)
+    if op is None:
+        op = rng.choice(perturb_ops(t))
     files = t.get("files", {})
     if op == "coefficient" and files:
         # change the first number that looks like a rate coefficient in one data line
@@ -701,6 +714,7 @@ def pinned_descriptions():
           "net": dict(MIXED, required_species=["He", "He+"], ode_modifier={"H2": {"factors": ["-1.0e-17 * nH"], "reactants": [["H"]]}}),
           "steps": [{"s": "new"}, {"s": "add_file", "file": "net.kida", "fmt": "kida"}, {"s": "touch", "where": "C2"}, dict(r_dense),
                     {"s": "rm_idx", "i": 0}, dict(r_dense, inplace=True),
+                    {"s": "add_str", "fmt": "kida", "line": "O          H2                     OH         H                                             3.300e-11  0.000e+00  0.000e+00 2.00e+00 0.00e+00 logn  4     10  41000  3    16 1  1\n"},
                     {"s": "add_inst", "R": ["CH", "O"], "P": ["CO", "H"], "pseudo": [], "alpha": 4.4e-11, "rtype": 100, "idx": 15},
                     {"s": "export", "solver": "cvode", "method": "sparse", "device": "cpu"},
                     {"s": "export", "solver": "cvode", "method": "sparse", "device": "cpu"}]}
@@ -745,11 +759,20 @@ def build_library(seed, tier):
     for i in range(14 if tier == "quick" else 90):
         lib.append(fam_random(rng, i))
     lib += pinned_descriptions()
-    # near twins: for a seed-dependent subset (quick) or for every description (thorough)
+    # near twins, systematically: every description gets one twin per applicable perturbation
+    # (thorough) or three of them, rotating through the list by its position in its family so
+    # that a family as a whole carries every perturbation (quick).  Luck is not a strategy: a
+    # collision needs a specific pair, and a random subset of twins misses it when the random
+    # stream shifts.
     base = list(lib)
-    chosen = base if tier != "quick" else rng.sample(base, min(len(base), 24))
-    for k, d in enumerate(chosen):
-        lib.append(perturb(rng, d, 0))
+    pos = {}
+    for d in base:
+        ops = perturb_ops(d)
+        j = pos.get(d["family"], 0)
+        pos[d["family"]] = j + 1
+        per = len(ops) if tier != "quick" else min(3, len(ops))
+        for x in range(per):
+            lib.append(perturb(rng, d, x, op=ops[(3 * j + x) % len(ops)] if tier == "quick" else ops[x]))
     # twins for the "independent of how often it is rendered" clause: the same description with
     # every rendering except the last one left out must give the same last rendering.  Twins are
     # only rendered as references (solo); they do not take part in the interleaved runs.
@@ -825,4 +848,5 @@ def features(d):
 ESSENTIAL_FEATURES = ["two_grain_charge_states", "cooling", "replacement_table", "upper_case_lists_without_replacement",
                       "cli_binding_energy", "cli_loads_custom_format", "two_isolated_required_species", "krome_var_common",
                       "krome_format_line", "edit_between_renderings", "in_place_rerender_after_edit", "step_export",
-                      "surface_prefix_G", "reactions_without_file_index", "ode_modifier", "rate_modifier"]
+                      "surface_prefix_G", "reactions_without_file_index", "ode_modifier", "rate_modifier", "step_add_str",
+                      "step_shielding_inplace"]
